@@ -209,6 +209,7 @@ def metrics(a):
     call('accuracy', lambda: float(M.get_accuracy_score(lt, lp)))
     call('confusion', lambda: M.get_confusion_matrix(lt, lp).toarray().astype(int).tolist())
     call('f1_scores', lambda: [np.asarray(x, dtype=float).tolist() for x in M.get_f1_scores(lt, lp, True)])
+    call('f1_only', lambda: np.asarray(M.get_f1_scores(lt, lp), dtype=float).tolist())
     for avg in ('micro', 'macro', 'weighted'):
         call('avg_' + avg, lambda avg=avg: float(M.get_average_f1_score(lt, lp, avg)))
     call('f1_binary', lambda: [float(x) for x in M.get_f1_score(lt, lp, True)])
